@@ -20,6 +20,7 @@ EXPLANATION = (
     "non-integers are rejected with ValueError; AbsoluteDuration uses divmod pairs of the absolute total; "
     "(5) total_*/in_* constants and truncation. NOT decided: float effects of `total % m * 1e6`/round, "
     "equality with timedelta for huge totals, rebuild-from-components."
+    ' Also: the pendulum.duration() factory forwards every parameter to the constructor parameter of the same name; the guards around the lazily computed hours/minutes digits only skip values below the unit; the component tuples used by copy/pickle rebuild the same Duration.'
 )
 
 
